@@ -93,8 +93,9 @@ def models(tier):
     add("LinearElasticLargeStrain", fem.LinearElasticLargeStrain(E=2.0, nu=0.25), energy=False, key=("LinearElasticLargeStrain", dict(E=2.0)))
     add("OgdenRoxburgh-virgin", fem.OgdenRoxburgh(fem.NeoHooke(mu=1.25, bulk=4.0), r=3.0, m=0.75, beta=0.125),
         sv=lambda n: np.zeros((1, n, 1)), hyper=False)
+    # (stored maximum energy well above the energy of every lattice state and its stencil: one branch)
     add("OgdenRoxburgh-loaded", fem.OgdenRoxburgh(fem.NeoHooke(mu=1.25, bulk=4.0), r=3.0, m=0.75, beta=0.125),
-        sv=lambda n: np.full((1, n, 1), 1.5), hyper=False)
+        sv=lambda n: np.full((1, n, 1), 6.0), hyper=False)
     for k, p in PAR.items():
         iso = k not in ANISOTROPIC
         add("tt." + k, fem.Hyperelastic(getattr(th, k), **p), iso=iso and k not in MICROSPHERE, key=(k, p))
@@ -102,15 +103,17 @@ def models(tier):
             add("jax." + k, fj.Hyperelastic(getattr(jh, k), **p), iso=iso and k not in MICROSPHERE, key=(k, p),
                 tolscale=64 if k in EIGEN_JAX else 1)
     add("tt.ogden_roxburgh-loaded", fem.Hyperelastic(th.ogden_roxburgh, material=th.neo_hooke, mu=1.25, r=3.0, m=0.75, beta=0.125, nstatevars=1),
-        sv=lambda n: np.full((1, n, 1), 1.5), hyper=False)
+        sv=lambda n: np.full((1, n, 1), 6.0), hyper=False)
     add("tt.ogden_roxburgh-virgin", fem.Hyperelastic(th.ogden_roxburgh, material=th.neo_hooke, mu=1.25, r=3.0, m=0.75, beta=0.125, nstatevars=1),
         sv=lambda n: np.zeros((1, n, 1)), hyper=False)
     add("composite", fem.Hyperelastic(th.mooney_rivlin, C10=0.25, C01=0.5) & fem.Volumetric(bulk=4.0))
     add("tt.total_lagrange-svk", fem.MaterialAD(fem.total_lagrange(lambda F, mu, lmbda: _svk_S(F, mu, lmbda)), mu=1.25, lmbda=2.0)
         if hasattr(fem, "total_lagrange") else None)
     add("tt.updated_lagrange-neohooke", fem.MaterialAD(fem.updated_lagrange(_nh_cauchy), mu=1.25, lmbda=2.0))
+    # (MORPH: Tresca-type invariants = max over eigenvalue differences; the active pair changes inside the stencil for some lattice
+    #  states, so the stencil law is not issued; tangent = AD of the stress, twins compared in C12)
     add("tt.morph", fem.MaterialAD(tl.morph, p=[0.039, 0.371, 0.174, 2.41, 0.0094, 6.84, 5.65, 0.244], nstatevars=13),
-        sv=lambda n: np.zeros((13, n, 1)), hyper=False, iso=False)
+        sv=lambda n: np.zeros((13, n, 1)), hyper=False, iso=False, deriv=False)
     # Seth-Hill generalisations of the Saint-Venant Kirchhoff models (principal-stretch branch), isotropic and orthotropic
     for k in (0, 1, -1):
         add("tt.saint_venant_kirchhoff-k%d" % k, fem.Hyperelastic(th.saint_venant_kirchhoff, k=k, **PAR["saint_venant_kirchhoff"]))
@@ -123,7 +126,7 @@ def models(tier):
     add("jax.microsphere-affine", fj.Hyperelastic(_affine(jms), mu=1.25), iso=False)
     # remaining Lagrange-type models with state variables, both back-ends; finite-strain viscoelasticity
     MP = [0.039, 0.371, 0.174, 2.41, 0.0094, 6.84, 5.65, 0.244]
-    add("jax.morph", fj.Material(jl.morph, p=MP, nstatevars=13), sv=lambda n: np.zeros((13, n, 1)), hyper=False, iso=False)
+    add("jax.morph", fj.Material(jl.morph, p=MP, nstatevars=13), sv=lambda n: np.zeros((13, n, 1)), hyper=False, iso=False, deriv=False)
     if True:
         add("tt.morph_representative_directions", fem.MaterialAD(tl.morph_representative_directions, p=MP, nstatevars=84),
             sv=lambda n: np.zeros((84, n, 1)), hyper=False, iso=False, deriv=False)
@@ -418,7 +421,7 @@ def c12(out, a):
     agree("agree-updated-lagrange-jax-tt", M["jax.updated_lagrange-neohooke"], M["tt.updated_lagrange-neohooke"])
     agree("agree-microsphere-affine-jax-tt", M["jax.microsphere-affine"], M["tt.microsphere-affine"])
     sv13 = np.zeros((13, n, 1))
-    agree("agree-morph-jax-tt", M["jax.morph"], M["tt.morph"], sva=sv13, svb=sv13)
+    agree("agree-morph-jax-tt", M["jax.morph"], M["tt.morph"], sva=sv13, svb=sv13, tol=8 * 512, relbits=9)      # jax: 1e-4 eigenvalue regularisation
     if "jax.morph_representative_directions" in M:
         sv84 = np.zeros((84, n, 1))
         agree("agree-morph-rd-jax-tt", M["jax.morph_representative_directions"], M["tt.morph_representative_directions"], sva=sv84, svb=sv84)
